@@ -19,11 +19,13 @@ Theorem C17_name_sound : forall data off buf name next buf',
 Proof. exact name_sound. Qed.
 Print Assumptions C17_name_sound.
 
-(* every name of at most 256 octets on the wire (RFC 1035 allows 255) reached through at most
-   254 compression pointers is decoded, whatever mixture of labels and pointer chains encodes it *)
+(* every name of at most 255 octets on the wire (RFC 1035 2.3.4) without a '.' inside a label
+   (rendering rule, Spec: presentable) reached through at most 254 compression pointers is decoded,
+   whatever mixture of labels and pointer chains encodes it; exact: see C17_name_decides *)
 Theorem C17_name_complete : forall data d off labels next buf,
   wf data -> bytes_ok (arr data) ->
-  name_at_d (view data) d off labels next -> (d <= 254)%nat -> (wire_len labels <= 256)%nat ->
+  name_at_d (view data) d off labels next -> (d <= 254)%nat -> (wire_len labels <= 255)%nat ->
+  Forall dotfree labels ->
   exists buf', decodeName name_fuel data off buf 1 = Ok (dotted labels, next, buf').
 Proof. exact name_complete. Qed.
 Print Assumptions C17_name_complete.
@@ -31,6 +33,7 @@ Print Assumptions C17_name_complete.
 Theorem C17_name_complete_rfc : forall data d off labels next buf,
   wf data -> bytes_ok (arr data) ->
   name_at_d (view data) d off labels next -> (wire_len labels <= 255)%nat -> (d <= 254)%nat ->
+  Forall dotfree labels ->
   exists buf', decodeName name_fuel data off buf 1 = Ok (dotted labels, next, buf').
 Proof. exact name_complete_rfc. Qed.
 Print Assumptions C17_name_complete_rfc.
@@ -49,18 +52,31 @@ Example C17_name_depth_255_rejected :
   decodeName name_fuel data 0 (mkBuf [] [] true) 1 = Err EParseFrame.
 Proof. exact name_depth_255_rejected. Qed.
 Print Assumptions C17_name_depth_255_rejected.
-Example C17_name_wire_256_accepted :
+Example C17_name_wire_255_accepted :
+  let data := of_bytes (long_name 61) in
+  match ref_decode (view data) 0 with Some (ls, _) => wire_len ls | None => 0%nat end = 255%nat /\
+  is_ok (decodeName name_fuel data 0 (mkBuf [] [] true) 1) = true.
+Proof. exact name_wire_255_accepted. Qed.
+Print Assumptions C17_name_wire_255_accepted.
+Example C17_name_wire_256_rejected :
   let data := of_bytes (long_name 62) in
   match ref_decode (view data) 0 with Some (ls, _) => wire_len ls | None => 0%nat end = 256%nat /\
-  is_ok (decodeName name_fuel data 0 (mkBuf [] [] true) 1) = true.
-Proof. exact name_wire_256_accepted. Qed.
-Print Assumptions C17_name_wire_256_accepted.
-Example C17_name_wire_257_rejected :
-  let data := of_bytes (long_name 63) in
-  match ref_decode (view data) 0 with Some (ls, _) => wire_len ls | None => 0%nat end = 257%nat /\
   decodeName name_fuel data 0 (mkBuf [] [] true) 1 = Err EParseFrame.
-Proof. exact name_wire_257_rejected. Qed.
-Print Assumptions C17_name_wire_257_rejected.
+Proof. exact name_wire_256_rejected. Qed.
+Print Assumptions C17_name_wire_256_rejected.
+(* 257 octets through compression, every segment short: rejected since the total-length check *)
+Example C17_name_wire_compressed_rejected :
+  let data := of_bytes ((63 :: repeat 97 63) ++ (63 :: repeat 98 63) ++ (63 :: repeat 99 63) ++ (59 :: repeat 100 59) ++ [0]
+                        ++ [3; 97; 98; 99; 192; 0]) in
+  match ref_decode (view data) 253 with Some (ls, _) => wire_len ls | None => 0%nat end = 257%nat /\
+  is_ok (decodeName name_fuel data 0 (mkBuf [] [] true) 1) = true /\
+  decodeName name_fuel data 253 (mkBuf [] [] true) 1 = Err EParseFrame.
+Proof. exact name_wire_compressed_rejected. Qed.
+Print Assumptions C17_name_wire_compressed_rejected.
+Example C17_name_dot_in_label_rejected :
+  decodeName name_fuel (of_bytes [3; 52; 46; 51; 1; 50; 0]) 0 (mkBuf [] [] true) 1 = Err EParseFrame.
+Proof. exact name_dot_in_label_rejected. Qed.
+Print Assumptions C17_name_dot_in_label_rejected.
 Example C17_name_compressed_example :
   let data := of_bytes (repeat 0 12 ++ [7;101;120;97;109;112;108;101;3;99;111;109;0] ++ [3;119;119;119;192;12]) in
   exists b', decodeName name_fuel data 25 (mkBuf [] [] true) 1 =
@@ -142,7 +158,7 @@ Print Assumptions C17_question_sound.
 Theorem C17_question_complete : forall p index buffer d ls n t c,
   wf p -> bytes_ok (arr p) -> (12 <= len p)%nat ->
   u16_at (view p) 4 = Some 1 ->
-  name_at_d (view p) d index ls n -> (d <= 254)%nat -> (wire_len ls <= 256)%nat ->
+  name_at_d (view p) d index ls n -> (d <= 254)%nat -> (wire_len ls <= 255)%nat -> Forall dotfree ls ->
   u16_at (view p) n = Some t -> u16_at (view p) (n + 2) = Some c ->
   decodeQuestion p (Z.of_nat index) buffer = Ok (mkQ (dotted ls) t c, (n + 4)%nat).
 Proof. exact question_complete. Qed.
@@ -156,7 +172,7 @@ Print Assumptions C17_question_complete.
    such names altogether: accepted leniency).  [lim] is the name-length limit of the reference, any
    value up to 256 (RFC 1035: 255). *)
 Theorem C17_records : forall p off buffer e lim an rrs endoff,
-  wf p -> bytes_ok (arr p) -> (12 <= len p)%nat -> (lim <= 256)%nat ->
+  wf p -> bytes_ok (arr p) -> (12 <= len p)%nat -> (lim <= 255)%nat ->
   u16_at (view p) 6 = Some an ->
   ref_rrs lim (N.to_nat an) (view p) off = Some (rrs, endoff) ->
   rrs_within lim (N.to_nat an) (view p) off ->
@@ -179,7 +195,7 @@ Print Assumptions C17_ptr_owner.
    entry when something was added, nothing otherwise) and leaves the reference table: the reference
    learning merged insert-if-absent into the previous table. *)
 Theorem C17_processdns_table : forall t p lim rm,
-  wf p -> bytes_ok (arr p) -> (lim <= 256)%nat ->
+  wf p -> bytes_ok (arr p) -> (lim <= 255)%nat ->
   ref_message lim (view p) = Some rm -> msg_within lim (view p) ->
   exists re, fst (processDNS t p) = Ok re /\
              option_map named_of re = fst (ref_process (ctable_of t) rm) /\
@@ -193,13 +209,13 @@ Print Assumptions C17_processdns_table.
    reason (short header, QDCOUNT <> 1, name that is no name, truncated question or record, RDLENGTH
    beyond the message, A / AAAA of the wrong size, bad CNAME / PTR target) gives an error. *)
 Theorem C17_processdns_accepts_wellformed : forall p, wf p -> bytes_ok (arr p) ->
-  forall lim, (64 * len p <= lim)%nat -> forall t re,
+  forall lim, (255 <= lim)%nat -> forall t re,
   fst (processDNS t p) = Ok re -> exists rm, ref_message lim (view p) = Some rm.
 Proof. exact processDNS_accepts_wellformed. Qed.
 Print Assumptions C17_processdns_accepts_wellformed.
 
 Theorem C17_processdns_rejects : forall p, wf p -> bytes_ok (arr p) ->
-  forall lim, (64 * len p <= lim)%nat -> forall t,
+  forall lim, (255 <= lim)%nat -> forall t,
   ref_message lim (view p) = None -> exists e, fst (processDNS t p) = Err e.
 Proof. exact processDNS_rejects. Qed.
 Print Assumptions C17_processdns_rejects.
